@@ -156,7 +156,7 @@ package routing
 //@   mode seq
 //@   requires data != nil && !data.IsStreamsEnabled()
 //@   allocates any
-//@   modifies heap, gPolicyAsked, gPolicyKey, gPolicyData, gDispatchedTree, now
+//@   modifies gPolicyAsked, gPolicyKey, gPolicyData, gDispatchedTree, now
 //@   on entry do gPolicyAsked = false
 //@   ensures[policies-of-this-transaction] gPolicyAsked && gPolicyKey == config.TxnID(args.ID) && gDispatchedTree == &gPolicyData.EndpointPolicyTree
 //@ func processResponse
@@ -164,6 +164,6 @@ package routing
 //@   mode seq
 //@   requires data != nil && !data.IsStreamsEnabled()
 //@   allocates any
-//@   modifies heap, gPolicyAsked, gPolicyKey, gPolicyData, gDispatchedTree, now
+//@   modifies gPolicyAsked, gPolicyKey, gPolicyData, gDispatchedTree, now
 //@   on entry do gPolicyAsked = false
 //@   ensures[policies-of-this-transaction] gPolicyAsked && gPolicyKey == config.TxnID(args.ID) && gDispatchedTree == &gPolicyData.EndpointPolicyTree
